@@ -58,7 +58,43 @@ func (e *Evald) Close() {
 // evalExpr replays the expression on fresh objects. A failure of an inner
 // operation is reported as error with the operation named.
 func EvalExpr(menu []spec.Batch, e enum.Expr, mode uint32) (*Evald, error) {
+	return evalExpr(menu, e, mode, nil)
+}
+
+// Leaves caches leaf segments so that several expressions run on the SAME objects.
+type Leaves struct {
+	m       map[string]*Evald
+	cleanup []func()
+}
+
+func NewLeaves() *Leaves { return &Leaves{m: map[string]*Evald{}} }
+
+func (l *Leaves) Close() {
+	for i := len(l.cleanup) - 1; i >= 0; i-- {
+		l.cleanup[i]()
+	}
+}
+
+// EvalExprShared is EvalExpr with leaf segments taken from (and added to) leaves.
+func EvalExprShared(menu []spec.Batch, e enum.Expr, mode uint32, leaves *Leaves) (*Evald, error) {
+	return evalExpr(menu, e, mode, leaves)
+}
+
+func evalExpr(menu []spec.Batch, e enum.Expr, mode uint32, leaves *Leaves) (*Evald, error) {
 	rv := &Evald{}
+	if e.Leaf != 0 && leaves != nil {
+		key := fmt.Sprintf("%d/%v", e.Leaf, e.Opened)
+		if c, ok := leaves.m[key]; ok {
+			return &Evald{Seg: c.Seg, Exp: c.Exp}, nil
+		}
+		c, err := evalExpr(menu, e, mode, nil)
+		leaves.cleanup = append(leaves.cleanup, c.Close)
+		if err != nil {
+			return &Evald{}, err
+		}
+		leaves.m[key] = c
+		return &Evald{Seg: c.Seg, Exp: c.Exp}, nil
+	}
 	if e.Leaf != 0 {
 		b := menu[e.Leaf-1]
 		rv.Exp = ref.FromBatch(b)
@@ -86,7 +122,7 @@ func EvalExpr(menu []spec.Batch, e enum.Expr, mode uint32) (*Evald, error) {
 	drops := make([][]bool, len(e.In))
 	bms := make([]*roaring.Bitmap, len(e.In))
 	for i, c := range e.In {
-		sub, err := EvalExpr(menu, c, mode)
+		sub, err := evalExpr(menu, c, mode, leaves)
 		rv.cleanup = append(rv.cleanup, sub.Close)
 		if err != nil {
 			return rv, fmt.Errorf("input %d: %v", i, err)
